@@ -14,8 +14,8 @@ tvars == <<l>>
 IsEv(e) == l <= Len(Rec) /\ Rec[l].ev = e /\ l' = l + 1
 Has(e, f) == f \in DOMAIN e
 
-WriteOk(e, dv) ==
-  LET T == TT(e.ty, dv) st == T.style IN
+WriteOkT(e, T, dv) ==
+  LET st == T.style IN
   /\ e.c \in 0..T.max
   /\ e.display = Display(T, e.c)
   /\ Has(e, "mn") = (st \in {"prefix", "withdec", "decimal", "rcode"})
@@ -25,13 +25,16 @@ WriteOk(e, dv) ==
   /\ Has(e, "ser") = HasSerde(T)
   /\ Has(e, "ser") => e.ser = SerHuman(T, e.c)
 
-ReadOk(e, dv) ==
-  LET T == TT(e.ty, dv) IN
+WriteOk(e, dv) == WriteOkT(e, TT(e.ty, dv), dv)
+
+ReadOkT(e, T, dv) ==
   /\ e.fromstr = Res(FromStr(T, e.t, dv))
   /\ Has(e, "mn") = (T.style # "rcode")
   /\ Has(e, "mn") => e.mn = Res(FromMn(T, e.t))
   /\ Has(e, "de") = (HasSerde(T) /\ T.id # "Rcode")
   /\ Has(e, "de") => e.de = Res(DeStr(T, e.t, dv))
+
+ReadOk(e, dv) == ReadOkT(e, TT(e.ty, dv), dv)
 
 Explained(P(_, _), e) == P(e, {}) \/ \E d \in Dev : P(e, {d})
 
@@ -40,8 +43,10 @@ TInit == l = 1
 Unsure(e) == TI(e.ty).unsure
 HitsUnsure(e) == \/ Has(e.fromstr, "ok") /\ e.fromstr.ok \in Unsure(e)
                  \/ Has(e, "mn") /\ Has(e.mn, "ok") /\ e.mn.ok \in Unsure(e)
-T_Write == IsEv("write") /\ (Rec[l].c \in Unsure(Rec[l]) \/ Explained(WriteOk, Rec[l]))
-T_Read == IsEv("read") /\ (HitsUnsure(Rec[l]) \/ Explained(ReadOk, Rec[l]))
+\* an optional registry row may be named or not (TA: every optional row adopted)
+WithAll(P(_, _, _), e) == \E dv \in {{}} \cup {{d} : d \in Dev} : P(e, TA(e.ty), dv)
+T_Write == IsEv("write") /\ (Rec[l].c \in Unsure(Rec[l]) \/ Explained(WriteOk, Rec[l]) \/ WithAll(WriteOkT, Rec[l]))
+T_Read == IsEv("read") /\ (HitsUnsure(Rec[l]) \/ Explained(ReadOk, Rec[l]) \/ WithAll(ReadOkT, Rec[l]))
 TNext == T_Write \/ T_Read
 TSpec == TInit /\ [][TNext]_tvars
 
